@@ -17,7 +17,7 @@ import sys
 import lib
 import impl as implmod
 from impl import (dump_state, parse_key, parse_pairs, split1, show_bool,
-                  assignment_str, OrderedKeys)
+                  assignment_str, OrderedKeys, shaped)
 from lib import Session, TT, check_invariants, reachable, SECTIONS_L3
 
 import dd.autoref as _auto   # noqa: E402
@@ -105,10 +105,10 @@ def op_auto(impl, mid, op, a):
         d = None
         return _store(impl, outs[0], r, (u,))
     if op == 'a_quantify':
-        keys = OrderedKeys(map(parse_key, split1(a[1])))
+        keys = shaped(map(parse_key, split1(a[1])), 6)
         return _store(impl, outs[0], ab.quantify(_h(impl, a[0]), keys, a[2] == '1'))
     if op in ('a_exist', 'a_forall'):
-        keys = OrderedKeys(map(parse_key, split1(a[0])))
+        keys = shaped(map(parse_key, split1(a[0])), 7)
         fn = ab.exist if op == 'a_exist' else ab.forall
         return _store(impl, outs[0], fn(keys, _h(impl, a[1])))
     if op == 'a_cube':
@@ -120,7 +120,7 @@ def op_auto(impl, mid, op, a):
         return _store(impl, outs[0], ab._add_int(int(a[0])))
     if op in ('a_image', 'a_preimage'):
         rn = {parse_key(k): parse_key(v) for k, v in parse_pairs(a[2])}
-        q = OrderedKeys(map(parse_key, split1(a[3])))
+        q = shaped(map(parse_key, split1(a[3])), 8)
         fn = _auto.image if op == 'a_image' else _auto.preimage
         return _store(impl, outs[0], fn(_h(impl, a[0]), _h(impl, a[1]), rn, q, a[4] == '1'))
     if op == 'a_succ':
